@@ -8,6 +8,7 @@ import (
 	"encoding/json"
 	"fmt"
 	"math"
+	"sort"
 	"strings"
 )
 
@@ -78,6 +79,9 @@ func c15Reduced(c *caseCtx) {
 		o.maxCrit = 5
 	}
 	g := genRequest(c.rng, o)
+	if c.idx%14 == 0 {
+		g = c15DecimalTies(c)
+	}
 	d := decide(g.body(), true)
 	c.count("evaluations", 1)
 	if !d.OK {
@@ -109,11 +113,76 @@ func c15Reduced(c *caseCtx) {
 		return
 	}
 	c.count("reduced_compared", 1)
+	if (method == "weightedSum" || method == "owa" || method == "choquetIntegral") && (c.idx%14 == 0 || g.profile != profReals) {
+		// a utility is a sum over the criteria: the reduced request may as well list the kept criteria in the order the
+		// original request declares them (decimal-tie problems; exact data otherwise, so no sum depends on its order)
+		pos := map[string]int{}
+		for i, cs := range g.crits {
+			pos[cs.id] = i
+		}
+		rc := append([]interface{}{}, red["criteria"].([]interface{})...)
+		sort.SliceStable(rc, func(i, j int) bool { return pos[rc[i].(M)["id"].(string)] < pos[rc[j].(M)["id"].(string)] })
+		red2 := deepCopyM(red)
+		red2["criteria"] = rc
+		d3 := decide((&genReq{M: red2, method: method}).body(), false)
+		c.count("evaluations", 1)
+		if !d3.OK {
+			c.violate("reduced-rejected", "the request with the omitted criteria deleted (declaration order) is rejected: "+d3.Err, M{"request": g.M, "reduced": red2})
+			return
+		}
+		b3, _ := json.Marshal(d3.Choice.Result)
+		if !bytes.Equal(a, b3) {
+			c.violate("reduced-differs", "the ranking differs from the ranking of the request with the omitted criteria deleted and the kept ones in their declared order",
+				M{"request": g.M, "reduced": red2, "biased_result": json.RawMessage(a), "reduced_result": json.RawMessage(b3)})
+			return
+		}
+		c.count("reduced_compared_in_declared_order", 1)
+	}
 	if len(e.Out.Crit) < len(e.In.Crit) {
 		c.count("nontrivial", 1)
 		c.count("reduced_nonempty", 1)
 		c.distinct(fmt.Sprintf("red|%s|%d|%d|%s", method, len(e.In.Crit), len(e.Out.Crit), optionTag(g)))
 	}
+}
+
+// c15DecimalTies: a weighted-sum problem whose alternatives carry the same multiset of decimal values (0.1 steps) in
+// different places, so their utilities are equal on paper while the float sums depend on the order of addition; the criterion
+// that gets omitted is the same for everybody. After the omission the kept criteria are handed on in importance order, in the
+// reduced request they stand in declaration order: the decision must be the same (ties are ties after the 1e-8 rounding).
+func c15DecimalTies(c *caseCtx) *genReq {
+	r := c.rng
+	nk := 3 + r.Intn(3)
+	na := 2 + r.Intn(4)
+	g := &genReq{method: "weightedSum", profile: profReals}
+	var crit []interface{}
+	w := M{}
+	for j := 0; j <= nk; j++ {
+		id := fmt.Sprintf("c%d", j)
+		crit = append(crit, M{"id": id, "type": "gain"})
+		g.crits = append(g.crits, critSpec{id: id})
+		w[id] = float64(nk+2-j) + float64(r.Intn(3))*0.25 // heavier first: importance order is not declaration order
+	}
+	multiset := make([]float64, nk)
+	for j := range multiset {
+		multiset[j] = float64(r.Intn(10)) / 10
+	}
+	var alts, chose []interface{}
+	for a := 0; a < na; a++ {
+		cv := M{}
+		for j, pj := range r.Perm(nk) {
+			cv[fmt.Sprintf("c%d", j)] = multiset[pj]
+		}
+		cv[fmt.Sprintf("c%d", nk)] = 0.0 // the weakest criterion (importance 0): the one omitted
+		id := fmt.Sprintf("a%d", a)
+		alts = append(alts, M{"id": id, "criteria": cv})
+		chose = append(chose, id)
+		g.altIds = append(g.altIds, id)
+		g.chose = append(g.chose, id)
+	}
+	g.M = M{"preferenceFunction": "weightedSum", "knownAlternatives": alts, "choseToMake": chose, "criteria": crit, "methodParameters": M{"weights": w},
+		"biases": []interface{}{M{"name": "criteriaOmission", "props": M{"ratio": 1.0 / float64(nk+1), "min": 1, "max": 1}}}}
+	c.count("decimal_tie_problems", 1)
+	return g
 }
 
 // ---------------------------------------------------------------------------------------------
